@@ -2,7 +2,7 @@
     a case is a history of write and read operations together with what the
     Go driver observed for each; the model is run along the history. *)
 From Coq Require Import List ZArith NArith Bool.
-From DH Require Import Lib.CheckLib Model.Store Model.FeedSpec Model.Keys.
+From DH Require Import Lib.CheckLib Model.Store Model.FeedSpec Model.Keys Model.ReverseReader.
 Import ListNotations.
 Open Scope Z_scope.
 
@@ -13,7 +13,8 @@ Inductive sop :=
 | SEntities (ds : Z) (limits : list Z) (o_pages : list (list oent))
 | SGet (id : uri) (at_ : option Z) (scope : list Z) (merged : bool)
        (o_found : bool) (o_partials : list (Z * content)) (o_deleted : bool)
-| SRaw (fam : N) (o_keys : list (list N)).   (* raw Badger keys of one index family, in iteration order *)
+| SRaw (fam : N) (o_keys : list (list N))
+| SRev (ds since limit : Z) (o_ents : list oent) (o_next : Z).   (* reverse change reader (iterator.Inverse) *)   (* raw Badger keys of one index family, in iteration order *)
 
 Definition tcase := list sop.
 
@@ -102,6 +103,10 @@ Definition agree_op (db : bool) (pr : proj) (st : store) (o : sop) : bool :=
        else list_eqb partial_eqb parts o_partials
             && (match parts with [] => Bool.eqb hasdel o_deleted | _ => true end)
      else match parts with [] => negb hasdel | _ => false end)
+  | SRev ds since limit o_ents o_next =>
+    negb (p_changes pr) ||
+    (let '(out, next) := changes_rev (get_ds st ds) since limit in
+     oents_eqb (map entry_oent out) o_ents && Z.eqb next o_next)
   | SRaw fam o_keys =>
     (* the real keys decode with the modelled layout, re-encode to themselves and come out of Badger in
        the order of their FIELD values (Proofs/KeysProofs.enc_order says that is the bytewise order) *)
@@ -173,6 +178,10 @@ Definition spec_op_ok (pr : proj) (s : sstate) (o : sop) : bool :=
       else match cur with [] => true | _ => false end
     end
   | SRaw _ _ => true
+  | SRev ds since limit o_ents o_next =>
+    negb (p_changes pr) ||
+    (let '(out, next) := spec_changes_rev (sget s ds) since limit in
+     oents_eqb out o_ents && Z.eqb next o_next)
   end.
 
 Fixpoint spec_run (pr : proj) (s : sstate) (ops : list sop) : bool :=
